@@ -304,6 +304,21 @@ func genCodecOpKind(op int) codecOp {
 		if simrt.Flip("c18.mutate", 0.3) {
 			b, _ = mutate(b, nil, 0)
 		}
+		if simrt.Flip("c18.container-keys-failing-value", 0.15) {
+			// a map whose keys are containers and one of whose values fails only when it is
+			// forced (a bool that is neither 0 nor 1)
+			n := 1 + ch("c18.container-key-entries", 3)
+			t, b = ref.TMap, []byte{ref.TList, ref.TList, 0, 0, 0, byte(n)}
+			bad := ch("c18.failing-entry", n)
+			for i := 0; i < n; i++ {
+				b = append(b, ref.TI32, 0, 0, 0, 2, 0, 0, 0, byte(i), 0, 0, 0, 9) // key: list<i32> [i, 9]
+				x := byte(1)
+				if i == bad {
+					x = 2
+				}
+				b = append(b, ref.TBool, 0, 0, 0, 2, 0, x) // value: list<bool> [false, x]
+			}
+		}
 		return codecOp{"Decode+EvaluateValue", func() string {
 			return resultOf(func() (string, error) {
 				w, err := tbinary.Default.Decode(simio.NewReaderAt(b, fullPlan), wire.Type(t))
@@ -401,10 +416,11 @@ func genCodecOpKind(op int) codecOp {
 		b := req.encode()
 		reply := genVal(ref.TStruct, 0, genOpts{maxDepth: 2})
 		plan := simio.Plan{TruncAt: -1, ErrAt: -1, Style: simio.Style(ch("c18.style", 3))}
+		ignore := ch("c18.body-ignored", 4) == 1
 		return codecOp{"ReadRequest+WriteResponse", func() string {
 			return resultOf(func() (string, error) {
 				r, _ := simio.NewReader(b, plan)
-				gb := &genericBody{}
+				gb := &genericBody{Ignore: ignore}
 				ctx, done := context.WithCancel(context.Background())
 				rw, err := tbinary.Default.ReadRequest(ctx, wire.EnvelopeType(req.Type), r, gb)
 				done() // the request's context ends once the request has been read
